@@ -48,8 +48,10 @@ REQUIRES(S_PRE(s))
 #ifndef VF_S_EMPTY
 REQUIRES(vf_w_g < S_SIZE(s))
 #endif
-ASSIGNS(s->v.elem.base, s->v.cap, s->v.count, __CPROVER_object_whole(s->v.elem.base), vf_aborted,
-        vf_cons_calls, vf_dest_calls, vf_xtor_next, vf_xtor_bad)
+ASSIGNS(s->v.elem.base, s->v.cap, s->v.count, vf_aborted, vf_cons_calls, vf_dest_calls, vf_xtor_next, vf_xtor_bad)
+#ifndef VF_S_EMPTY
+ASSIGNS(__CPROVER_object_whole(s->v.elem.base))
+#endif
 FREES(s->v.elem.base)
 ENSURES(S_WF(s) && S_SIZE(s) == n && s->v.count == n + 1 && S_DATA(s)[n] == NUL)
 #ifndef VF_S_EMPTY
@@ -59,15 +61,20 @@ ENSURES(n + 1 <= vf_w_cap ==> s->v.elem.base == OLD(s->v.elem.base))
 ;
 
 /* erase: characters [idx, idx+len') removed, len' = min(len, size - idx); the rest keeps its order */
+#define S_LENP(len, idx) ((len) > vf_w_size - (idx) ? vf_w_size - (idx) : (len))
 void SN(erase)(struct ST * const s, const size_t idx, size_t len)
-REQUIRES(S_PRE(s) && vf_w_g < S_SIZE(s))
-ASSIGNS(s->v.elem.base, s->v.cap, s->v.count, __CPROVER_object_whole(s->v.elem.base), vf_aborted,
-        vf_cons_calls, vf_dest_calls, vf_xtor_next, vf_xtor_bad)
+REQUIRES(S_PRE(s) && vf_w_g < S_SIZE(s) && vf_w_h < S_SIZE(s))
+ASSIGNS(s->v.elem.base, s->v.cap, s->v.count, vf_aborted, vf_cons_calls, vf_dest_calls, vf_xtor_next, vf_xtor_bad)
+#ifndef VF_S_EMPTY
+ASSIGNS(__CPROVER_object_whole(s->v.elem.base))
+#endif
 FREES(s->v.elem.base)
 ENSURES(idx < vf_w_size)
 ENSURES(S_WF(s) && S_SIZE(s) == vf_w_size - (len > vf_w_size - idx ? vf_w_size - idx : len))
 /* character g of the result: below idx it is old g, from idx on it is old g + len' */
 ENSURES((vf_w_g < idx && vf_w_g < S_SIZE(s)) ==> S_DATA(s)[vf_w_g] == OLD(S_DATA(s)[vf_w_g]))
+/* ... and old character h behind the erased range moves down by len' */
+ENSURES(((vf_u128)vf_w_h >= (vf_u128)idx + S_LENP(len, idx)) ==> S_DATA(s)[vf_w_h - S_LENP(len, idx)] == OLD(S_DATA(s)[vf_w_h]))
 ENSURES(s->v.elem.base == OLD(s->v.elem.base))
 ;
 
@@ -75,10 +82,12 @@ ENSURES(s->v.elem.base == OLD(s->v.elem.base))
 static void SN(prep_insert)(struct ST * const s, const size_t pos, const size_t len)
 REQUIRES(S_PRE(s))
 #ifndef VF_S_EMPTY
-REQUIRES(vf_w_g < S_SIZE(s))
+REQUIRES(vf_w_g < S_SIZE(s) && vf_w_h < S_SIZE(s))
 #endif
-ASSIGNS(s->v.elem.base, s->v.cap, s->v.count, __CPROVER_object_whole(s->v.elem.base), vf_aborted,
-        vf_cons_calls, vf_dest_calls, vf_xtor_next, vf_xtor_bad)
+ASSIGNS(s->v.elem.base, s->v.cap, s->v.count, vf_aborted, vf_cons_calls, vf_dest_calls, vf_xtor_next, vf_xtor_bad)
+#ifndef VF_S_EMPTY
+ASSIGNS(__CPROVER_object_whole(s->v.elem.base))
+#endif
 FREES(s->v.elem.base)
 #ifdef VF_S_EMPTY
 ENSURES(pos == 0)
@@ -88,6 +97,8 @@ ENSURES(pos <= vf_w_size)
 ENSURES(S_WF(s) && (vf_u128)S_SIZE(s) == (vf_u128)vf_w_size + len)
 /* characters before the gap stay */
 ENSURES(vf_w_g < pos ==> S_DATA(s)[vf_w_g] == OLD(S_DATA(s)[vf_w_g]))
+/* characters from the gap position on move up by len */
+ENSURES((vf_w_h >= pos && len > 0) ==> S_DATA(s)[vf_w_h + len] == OLD(S_DATA(s)[vf_w_h]))
 #endif
 ;
 
@@ -111,6 +122,7 @@ ENSURES(RESULT == S_DATA(s) && RESULT[S_SIZE(s)] == NUL)
 #endif
 ;
 
+#undef S_LENP
 #undef S_DATA
 #undef S_CNT
 #undef S_SIZE
